@@ -81,7 +81,7 @@ CHECKS["C06"] = dict(
          "map, parentheses): every path of at most Depth fragments from 11 start contexts, each text cut off inside whatever is open "
          "and closed again, pushed through lex, parse, compile + error rendering, format (default and narrow options) and run; "
          "CoreCalls.tla enumerates, for every callable entry of the prelude dumped from the runtime under test, every argument tuple "
-         "up to the arity bound over a pool of 34 boundary values, a name used twice denoting the same object (receiver passed as "
+         "up to the arity bound over a pool of 37 boundary values, a name used twice denoting the same object (receiver passed as "
          "its own argument, callbacks that mutate the receiver); result or error is displayed. Every other check also treats a "
          "panic of the code under test as a violation of its replay.",
     design_ref="DESIGN.md §5 C06",
